@@ -9,7 +9,7 @@ func init() {
 
 func checkC15(p *Program, tier string) *Result {
 	r := newResult("C15")
-	r.Explanation = "Four necessary conditions, each the shape of a race the property names. R-GOCAPTURE: no goroutine closure in the server universe captures by reference a variable its spawning function can write after the go statement (so a lookup goroutine observes one complete configuration). R-SHAREDWRITE: every store, map update/delete and call of a non-thread-safe library method with pointer receiver in functions reachable (CHA) from the connection goroutine, handler entry points and SecretProvider.Get, whose address does not root in a local allocation, targets a connection-confined type, is under an exclusive lock taken in that function, or is reported. R-CONFINED: the confined types are not allocated by the configuration build and not stored into globals or long-lived objects. R-MUTEX: every access to the session table's map outside the connection-confined drain is under the table's mutex. R-FRESHDECODE: a published configuration is never written again because every decode targets a fresh value. R-ATOMICRELOAD: provider list and both filters are replaced together in the configuration case of the update loop and nowhere else. R-GOFIELD: for every go statement of the server universe the functions its goroutine can execute are computed (CHA); a field of a long-lived struct that goroutine code writes must not be read or written - including by the implicit whole-struct copy of a value-receiver method called through a pointer - by code another goroutine can execute, unless both sides hold the struct's lock, the write precedes the go statement that starts the reader, or the type is connection-confined. This is NOT a proof of race freedom (no may-happen-in-parallel analysis with pointer precision is available)."
+	r.Explanation = "R-LOCKLEAK: no method that locks its receiver returns one of the receiver's map fields uncopied. Four more necessary conditions, each the shape of a race the property names. R-GOCAPTURE: no goroutine closure in the server universe captures by reference a variable its spawning function can write after the go statement (so a lookup goroutine observes one complete configuration). R-SHAREDWRITE: every store, map update/delete and call of a non-thread-safe library method with pointer receiver in functions reachable (CHA) from the connection goroutine, handler entry points and SecretProvider.Get, whose address does not root in a local allocation, targets a connection-confined type, is under an exclusive lock taken in that function, or is reported. R-CONFINED: the confined types are not allocated by the configuration build and not stored into globals or long-lived objects. R-MUTEX: every access to the session table's map outside the connection-confined drain is under the table's mutex. R-FRESHDECODE: a published configuration is never written again because every decode targets a fresh value. R-ATOMICRELOAD: provider list and both filters are replaced together in the configuration case of the update loop and nowhere else. R-GOFIELD: for every go statement of the server universe the functions its goroutine can execute are computed (CHA); a field of a long-lived struct that goroutine code writes must not be read or written - including by the implicit whole-struct copy of a value-receiver method called through a pointer - by code another goroutine can execute, unless both sides hold the struct's lock, the write precedes the go statement that starts the reader, or the type is connection-confined. This is NOT a proof of race freedom (no may-happen-in-parallel analysis with pointer precision is available)."
 	ruleGoCapture(p, r, nil)
 	r.floor("R-GOCAPTURE", 3)
 	ruleSharedWrite(p, r)
@@ -19,6 +19,7 @@ func checkC15(p *Program, tier string) *Result {
 	ruleFreshDecode(p, r, false)
 	ruleAtomicReload(p, r)
 	ruleGoField(p, r)
+	ruleLockLeak(p, r)
 	ruleBuildKeepsConfig(p, r)
 	// lookups in flight keep the list they were started with: the build must not write into the storage of a
 	// list it handed out before
